@@ -698,7 +698,14 @@ impl<'a> Searcher<'a> {
                                         if file_type.is_symlink() {
                                             if let Ok(resolved) = std::fs::read_link(&path) {
                                                 ok = true;
-                                                path = resolved;
+                                                // a relative target is relative to the directory of the link
+                                                path = match path.parent() {
+                                                    Some(parent) if resolved.is_relative() => {
+                                                        let joined = parent.join(resolved);
+                                                        joined.canonicalize().unwrap_or(joined)
+                                                    }
+                                                    _ => resolved,
+                                                };
                                             }
                                         } else if file_type.is_dir() {
                                             ok = true;
